@@ -214,12 +214,43 @@ Theorem c18_branch_packing_inv : forall K V (cmp : K -> K -> comparison) (ksize 
   (1 <= length out)%nat /\ (2 * length out <= length l)%nat.
 Proof. exact (@build_branch_nodes_ok). Qed.
 
-(* NOT stated as a theorem (missing): `c18_cursor_refines_tree` -- for every well-formed tree, bound and script,
-   CursorSplice.t_session returns the specification cursor's outputs and a tree with TreeInv whose contents are the
-   specification's map.  The ingredients are proved (c18_step_refines for every flush decision, c18_splice_refines for
-   every flush, c04_delete_refines for the removals); the induction over the script that threads `run_ok`, the sortedness
-   of `s_before ++ r_buf ++ s_after` and `abs tree = rev s_before ++ s_after` through c_step is not written.  The check
-   validates it per run instead (SPEC! / INV! markers of the shape stage). *)
+(* ---- whole cursor sessions on the TREE ---------------------------------------------------------
+   Btree/CursorSession.v (the session machine with the flush decision as an oracle), Btree/CursorSessionP.v. *)
+From RV Require Import Btree.CursorSession Btree.CursorSessionP.
+
+(* c18_cursor_refines_tree: for EVERY well-formed tree, every opening position (lower_bound / upper_bound of any
+   bound), every script of peek_next / peek_prev / next / prev / insert_before / insert_after / remove_next /
+   remove_prev, every key/value size function, page size, valid separator function and every INSERT_FLUSH_BYTES
+   threshold: the tree-level session of CursorSplice.v (gap logic of btree_cursor.rs driving open_insert_run /
+   splice_insert_run / pop_leaf_entry on the B-tree; flushes forced by a direction switch, a move, a removal and
+   close, and decided by total_bytes() >= threshold) returns exactly the outputs of the sorted-map gap cursor opened
+   at the same bound on the tree's contents -- inserts accepted iff strictly between the gap's neighbours
+   (c18_insert_before_iff / c18_insert_after_iff), the neighbours peeked / stepped over / removed -- and after
+   close() the tree is well-formed (TreeInv) and holds exactly the specification's map. *)
+Theorem c18_cursor_refines_tree : forall K V (cmp : K -> K -> comparison), OrderLaws cmp ->
+  forall (ksize : K -> N) (vsize : V -> N) (fixed_k fixed_v : bool) (page_size : N) (sep : K -> K -> K),
+  valid_sep cmp sep ->
+  forall (flush_bytes : N) (bt : @btree K V) (lower : bool) (b : bound K) (ops : list (@cursor_op K V)),
+  TreeInv cmp bt ->
+  let '(outs, bt') := t_session cmp ksize vsize fixed_k fixed_v page_size sep flush_bytes bt lower b ops in
+  let '(ys, c') := cursor_script cmp ops (if lower then seek_lower cmp (abs_tree bt) b else seek_upper cmp (abs_tree bt) b) in
+  outs = ys /\ TreeInv cmp bt' /\ abs_tree bt' = cursor_map c'.
+Proof. exact (@tree_session_refines). Qed.
+
+(* the same however the inserts are batched: the size-triggered decision replaced by an ARBITRARY oracle `fls` of the
+   step (number of operations that remain: distinct per step, so every sequence of decisions is some oracle) and of
+   the whole machine state (tree, gap, pending run).  t_session is the instance threshold_oracle
+   (CursorSessionP.c_session_is_g_session, used in the proof of the theorem above). *)
+Theorem c18_cursor_refines_tree_any_flush : forall K V (cmp : K -> K -> comparison), OrderLaws cmp ->
+  forall (ksize : K -> N) (vsize : V -> N) (fixed_k fixed_v : bool) (page_size : N) (sep : K -> K -> K),
+  valid_sep cmp sep ->
+  forall (fls : nat -> @cstate K V (@btree K V) -> bool) (bt : @btree K V) (lower : bool) (b : bound K)
+         (ops : list (@cursor_op K V)),
+  TreeInv cmp bt ->
+  let '(outs, bt') := tg_session cmp ksize vsize fixed_k fixed_v page_size sep fls bt lower b ops in
+  let '(ys, c') := cursor_script cmp ops (if lower then seek_lower cmp (abs_tree bt) b else seek_upper cmp (abs_tree bt) b) in
+  outs = ys /\ TreeInv cmp bt' /\ abs_tree bt' = cursor_map c'.
+Proof. exact (@tree_session_refines_oracle). Qed.
 
 (* ---- non-vacuity and the two negative variants ------------------------------------------------ *)
 Definition ex_kv (n : N) : key * bytes := (KU64 n, [n]).
@@ -240,6 +271,96 @@ Example c18_nonvacuous_splice :
   tree_checkb key_cmp bt' = true /\
   List.map fst (abs_tree bt') = List.map KU64 [1; 2; 3; 4; 7; 8; 10; 11; 12; 13]%N /\
   match bt_root bt' with Some (Branch _ [(s, _)]) => s = KU64 8 | _ => False end.
+Proof. vm_compute. repeat split; reflexivity. Qed.
+
+(* a session on the 3-level tree opened at lower_bound(10): the gap between 4 and 10 is the boundary of the leaves
+   {3,4} and {10,11} (and of the root's two subtrees).  Ascending inserts 5, 6 (the second crosses the threshold:
+   18 bytes copied from the leaf + 2 * 9 >= 30, spliced at once), 6 again REJECTED (<= previous insert), descending
+   inserts 9, 9 again REJECTED (>= pending insert), 8, peeks into the buffers, ascending 7 (direction switch: the
+   pending 8, 9 are spliced first), remove_next (forced flush of 7, removes 8), moves, remove_prev (removes 6), two
+   more rejections (equal to the neighbour 10; 7 is in the tree).  Outputs = the specification cursor's; the final
+   tree is well-formed and holds 1 2 3 4 5 7 9 10 11 12 13 in the leaves {1,2} {3,4,5} {7,9} {10,11} {12,13}. *)
+Definition ex_session : list (@cursor_op key bytes) :=
+  [CInsertBefore (KU64 5) [5]; CInsertBefore (KU64 6) [6]; CInsertBefore (KU64 6) [0];
+   CInsertAfter (KU64 9) [9]; CInsertAfter (KU64 9) [0]; CInsertAfter (KU64 8) [8]; CPeekPrev; CPeekNext;
+   CInsertBefore (KU64 7) [7]; CRemoveNext; CNext; CPrev; CPrev; CRemovePrev;
+   CInsertAfter (KU64 10) [0]; CInsertBefore (KU64 7) [77]; CPeekPrev]%N.
+Definition ex_session_outs : list (@cursor_out key bytes) :=
+  [CAccepted true; CAccepted true; CAccepted false; CAccepted true; CAccepted false; CAccepted true;
+   CEntry (Some (ex_kv 6)); CEntry (Some (ex_kv 8)); CAccepted true; CEntry (Some (ex_kv 8)); CEntry (Some (ex_kv 9));
+   CEntry (Some (ex_kv 9)); CEntry (Some (ex_kv 7)); CEntry (Some (ex_kv 6)); CAccepted false; CAccepted false;
+   CEntry (Some (ex_kv 5))]%N.
+
+Example c18_nonvacuous_tree_session :
+  let r := t_session key_cmp key_size val_size true false 64 (fun l r : key => l) 30 ex_tree3 true (Included (KU64 10)) ex_session in
+  tree_checkb key_cmp ex_tree3 = true /\
+  fst r = ex_session_outs /\
+  fst (cursor_script key_cmp ex_session (seek_lower key_cmp (abs_tree ex_tree3) (Included (KU64 10)))) = ex_session_outs /\
+  tree_checkb key_cmp (snd r) = true /\
+  bt_leaves (snd r) = List.map (List.map ex_kv) [[1; 2]; [3; 4; 5]; [7; 9]; [10; 11]; [12; 13]]%N /\
+  abs_tree (snd r) = cursor_map (snd (cursor_script key_cmp ex_session (seek_lower key_cmp (abs_tree ex_tree3) (Included (KU64 10))))).
+Proof. vm_compute. repeat split; reflexivity. Qed.
+
+(* the same script under an oracle that splices after every accepted insert at an even number of remaining
+   operations, opened at upper_bound(4) (the same gap reached from the other side) *)
+Example c18_nonvacuous_tree_session_any_flush :
+  let r := tg_session key_cmp key_size val_size true false 64 (fun l r : key => l) (fun n _ => Nat.even n) ex_tree3 false
+             (Included (KU64 4)) ex_session in
+  fst r = ex_session_outs /\ tree_checkb key_cmp (snd r) = true /\
+  List.map fst (abs_tree (snd r)) = List.map KU64 [1; 2; 3; 4; 5; 7; 9; 10; 11; 12; 13]%N.
+Proof. vm_compute. repeat split; reflexivity. Qed.
+
+(* ---- erasure: the session theorem holds of the DECORATED model ------------------------------------
+   ShapeCursor.s_session runs the same session machine on Shape.v's snode (dirty flag and allocated length per
+   page); it is the model that is extracted and compared node by node with the real B-tree after every cursor
+   session (S2).  Erasing the decorations commutes with a whole session: outputs equal, final tree erased
+   (Btree/ShapeCursorP.v: the list-level functions of the splice are polymorphic in the node type and commute with
+   any map of nodes that commutes with the page constructor; leaves / locate / build_replacement_leaves /
+   splice_sub / splice_insert_run / delete_key on snode; the session machine commutes with any such map of stores).
+   Required without Import: ShapeScan re-uses names of ScanTree. *)
+From RV Require Btree.Shape Btree.ShapeScan Btree.ShapeCursor Btree.ShapeCursorP.
+
+Theorem c18_shape_session_erases : forall K V (cmp : K -> K -> comparison)
+  (ksize : K -> N) (vsize : V -> N) (fixed_k fixed_v : bool) (page_size : N) (sep : K -> K -> K) (flush_bytes : N)
+  (st : @Shape.sbtree K V) (lower : bool) (b : bound K) (ops : list (@cursor_op K V)),
+  t_session cmp ksize vsize fixed_k fixed_v page_size sep flush_bytes (Shape.erase_tree st) lower b ops =
+  (fst (ShapeCursor.s_session cmp ksize vsize fixed_k fixed_v page_size sep flush_bytes st lower b ops),
+   Shape.erase_tree (snd (ShapeCursor.s_session cmp ksize vsize fixed_k fixed_v page_size sep flush_bytes st lower b ops))).
+Proof. exact (@ShapeCursorP.session_erase). Qed.
+
+(* c18_cursor_refines_tree transferred to the decorated model: for every decorated tree whose erasure is well-formed *)
+Theorem c18_cursor_refines_shape : forall K V (cmp : K -> K -> comparison)
+  (ksize : K -> N) (vsize : V -> N) (fixed_k fixed_v : bool) (page_size : N) (sep : K -> K -> K) (flush_bytes : N),
+  OrderLaws cmp -> valid_sep cmp sep ->
+  forall (st : @Shape.sbtree K V) (lower : bool) (b : bound K) (ops : list (@cursor_op K V)),
+  TreeInv cmp (Shape.erase_tree st) ->
+  let '(outs, st') := ShapeCursor.s_session cmp ksize vsize fixed_k fixed_v page_size sep flush_bytes st lower b ops in
+  let '(ys, c') := cursor_script cmp ops (if lower then seek_lower cmp (abs_tree (Shape.erase_tree st)) b
+                                          else seek_upper cmp (abs_tree (Shape.erase_tree st)) b) in
+  outs = ys /\ TreeInv cmp (Shape.erase_tree st') /\ abs_tree (Shape.erase_tree st') = cursor_map c'.
+Proof. exact (@ShapeCursorP.shape_session_refines). Qed.
+
+(* the example session on a decorated copy of the 3-level tree (left half committed; the right branch and the last
+   leaf already uncommitted): the rebuilt spine and the leaves the splices built are uncommitted pages, the untouched
+   leaves {1,2} and {10,11} keep their committed pages; erasing gives exactly the logical session's tree *)
+Definition ex_sleaf (d : bool) (l : list N) : @Shape.snode key bytes := Shape.SLeaf d 64 (List.map ex_kv l).
+Definition ex_stree3 : @Shape.sbtree key bytes :=
+  Shape.mk_sbtree
+    (Some (Shape.SBranch false (Shape.SBranch false (ex_sleaf false [1; 2]) [(KU64 2, ex_sleaf false [3; 4])])
+             [(KU64 4, Shape.SBranch true (ex_sleaf false [10; 11]) [(KU64 11, ex_sleaf true [12; 13])])]))%N 8.
+
+Example c18_nonvacuous_shape_session :
+  let r := ShapeCursor.s_session key_cmp key_size val_size true false 64 (fun l r : key => l) 30 ex_stree3 true
+             (Included (KU64 10)) ex_session in
+  Shape.erase_tree ex_stree3 = ex_tree3 /\
+  fst r = ex_session_outs /\
+  snd r = Shape.mk_sbtree
+            (Some (Shape.SBranch true
+                     (Shape.SBranch true (ex_sleaf false [1; 2])
+                        [(KU64 2, ex_sleaf true [3; 4; 5]); (KU64 5, ex_sleaf true [7; 9])])
+                     [(KU64 9, Shape.SBranch true (ex_sleaf false [10; 11]) [(KU64 11, ex_sleaf true [12; 13])])]))%N 11 /\
+  Shape.erase_tree (snd r) =
+    snd (t_session key_cmp key_size val_size true false 64 (fun l r : key => l) 30 ex_tree3 true (Included (KU64 10)) ex_session).
 Proof. vm_compute. repeat split; reflexivity. Qed.
 
 (* NEGATIVE: the variant that drops the carried bound at the ancestor storing no separator for the slot leaves the
